@@ -10,7 +10,8 @@ NEG = ['', 'n', 'N', 'no', ' y', '\ty', 'ñ', 'ｙ', 'Ｙ', 'ʏes', 'x' * 300,
        'ny', '0', 'true', '-y', '"y"', 'n y', '.', 'oui', 'да']
 POS = ['y', 'Y', 'yes', 'YES', 'y ', 'yn', 'Yup', 'y\x00', 'yyyy']
 NAMES = ['a', 'b c', 'ü', 'x.txt', '-f', 'q?', '*', 'long' * 10, 'z%41',
-         "it's", 'semi;colon', 'tab\there']
+         "it's", 'semi;colon', 'tab\there', 'report.trashinfo', 'x.trashinfo.bak',
+         '.trashinfo', 'a.trashinfo.trashinfo', 'caf\u00e9', 'cafe\u0301']
 
 
 def config(tier):
@@ -38,7 +39,8 @@ def gen_case(rng, index, tier):
              for _ in range(n)]
     L, trashes, entries = trashworld.make(
         rng, index, n_entries=n, dates=dates,
-        names=[rng.choice(NAMES) + str(i) for i in range(n)])
+        names=[rng.choice(NAMES) + (str(i) if rng.random() < 0.7 else '')
+               for i in range(n)])
     extras = []
     if rng.random() < 0.5:
         t = rng.choice(trashes)
